@@ -62,9 +62,53 @@ func agreeHash(r *engine.Run, rule string) {
 			continue
 		}
 		recv := h.Params[0]
+		// the skeleton lives in GetHashBytes itself, or in one package function
+		// that GetHashBytes returns the result of, handing it the receiver's
+		// origin and the receiver's own encode (method value) as arguments
+		body := h
+		originOK := func(v ssa.Value) bool {
+			if oc, ok := through(v).(*ssa.Call); ok {
+				if rv, ok := engine.IsMethodCall(oc, "GetOrigin"); ok && derivesFromRecv(rv, recv) {
+					return true
+				}
+			}
+			return false
+		}
+		encOK := func(c *ssa.Call, buf ssa.Value) bool {
+			return c.Call.StaticCallee() == enc && c.Call.Args[0] == ssa.Value(recv) && c.Call.Args[1] == buf
+		}
+		delegated := true
+		if hb, via := hashBody(h); hb != h && hb != nil {
+			body = hb
+			var pOrigin, pEnc *ssa.Parameter
+			for i, a := range via.Call.Args {
+				if i >= len(hb.Params) {
+					break
+				}
+				if originOK(a) {
+					pOrigin = hb.Params[i]
+				}
+				if mc, ok := a.(*ssa.MakeClosure); ok && len(mc.Bindings) == 1 && mc.Bindings[0] == ssa.Value(recv) {
+					if bf, ok := mc.Fn.(*ssa.Function); ok && boundOf(bf) == enc {
+						pEnc = hb.Params[i]
+					}
+				}
+			}
+			okDeleg := false
+			for _, ret := range engine.Returns(h) {
+				if len(ret.Results) == 1 && ret.Results[0] == ssa.Value(via) {
+					okDeleg = true
+				}
+			}
+			delegated = okDeleg
+			originOK = func(v ssa.Value) bool { return pOrigin != nil && through(v) == ssa.Value(pOrigin) }
+			encOK = func(c *ssa.Call, buf ssa.Value) bool {
+				return pEnc != nil && !c.Call.IsInvoke() && c.Call.Value == ssa.Value(pEnc) && len(c.Call.Args) == 1 && c.Call.Args[0] == buf
+			}
+		}
 		var buf ssa.Value
 		var bw, encCall, raw *ssa.Call
-		engine.Instrs(h, func(in ssa.Instruction) {
+		engine.Instrs(body, func(in ssa.Instruction) {
 			c, ok := in.(*ssa.Call)
 			if !ok {
 				return
@@ -74,10 +118,13 @@ func agreeHash(r *engine.Run, rule string) {
 				buf = c
 			case extCalleeIs(c, "encoding/binary", "", "Write"):
 				bw = c
-			case c.Call.StaticCallee() == enc:
-				encCall = c
 			case extCalleeIs(c, "core/encryption", "", "RawHash"):
 				raw = c
+			}
+		})
+		engine.Instrs(body, func(in ssa.Instruction) {
+			if c, ok := in.(*ssa.Call); ok && buf != nil && encOK(c, buf) {
+				encCall = c
 			}
 		})
 		good := buf != nil && bw != nil && encCall != nil && raw != nil
@@ -91,24 +138,20 @@ func agreeHash(r *engine.Run, rule string) {
 					okOrder = true
 				}
 			}
-			okOrigin := false
-			if oc, ok := through(bw.Call.Args[2]).(*ssa.Call); ok {
-				if rv, ok := engine.IsMethodCall(oc, "GetOrigin"); ok && derivesFromRecv(rv, recv) {
-					okOrigin = true
-				}
-			}
-			okEnc := encCall.Call.Args[0] == ssa.Value(recv) && encCall.Call.Args[1] == buf
+			okOrigin := originOK(bw.Call.Args[2])
+			okEnc := true
 			okRaw := false
 			if bc, ok := through(raw.Call.Args[0]).(*ssa.Call); ok && extCalleeIs(bc, "bytes", "Buffer", "Bytes") && bc.Call.Args[0] == buf {
 				okRaw = true
 			}
 			okOrd := engine.InstrDominates(bw, encCall) && engine.InstrDominates(encCall, raw)
 			okRet := false
-			for _, ret := range engine.Returns(h) {
+			for _, ret := range engine.Returns(body) {
 				if len(ret.Results) == 1 && ret.Results[0] == ssa.Value(raw) {
 					okRet = true
 				}
 			}
+			okRet = okRet && delegated
 			good = okBuf && okOrder && okOrigin && okEnc && okRaw && okOrd && okRet
 			detail = fmt.Sprintf("buffer=%v little-endian=%v origin-of-receiver=%v own-encode=%v hash-of-buffer=%v order=%v returned=%v", okBuf, okOrder, okOrigin, okEnc, okRaw, okOrd, okRet)
 		}
@@ -135,6 +178,57 @@ func agreeHash(r *engine.Run, rule string) {
 		r.Check(good2, rule, fn(e), r.P.Pos(e.Pos()), "Encode = node prefix || the same encode()", "Encode does not persist exactly the fields that are hashed (prefix, then the type's own encode on the same buffer)")
 	}
 	r.Min(rule, 6)
+}
+
+// hashBody returns the function that builds the hash pre-image of h: h itself
+// when it creates the buffer, else the one package function h calls that does
+// (with the call).
+func hashBody(h *ssa.Function) (*ssa.Function, *ssa.Call) {
+	has := func(f *ssa.Function) bool {
+		found := false
+		engine.Instrs(f, func(in ssa.Instruction) {
+			if c, ok := in.(*ssa.Call); ok && extCalleeIs(c, "bytes", "", "NewBuffer") {
+				found = true
+			}
+		})
+		return found
+	}
+	if has(h) {
+		return h, nil
+	}
+	var body *ssa.Function
+	var via *ssa.Call
+	n := 0
+	engine.Instrs(h, func(in ssa.Instruction) {
+		c, ok := in.(*ssa.Call)
+		if !ok {
+			return
+		}
+		if sc := c.Call.StaticCallee(); sc != nil && sc.Pkg == h.Pkg && sc.Blocks != nil && has(sc) {
+			body, via = sc, c
+			n++
+		}
+	})
+	if n == 1 {
+		return body, via
+	}
+	return h, nil
+}
+
+// boundOf: the method a bound-method wrapper (x.m used as a value) calls.
+func boundOf(w *ssa.Function) *ssa.Function {
+	var out *ssa.Function
+	n := 0
+	engine.Instrs(w, func(in ssa.Instruction) {
+		if c, ok := in.(*ssa.Call); ok {
+			n++
+			out = c.Call.StaticCallee()
+		}
+	})
+	if n == 1 {
+		return out
+	}
+	return nil
 }
 
 // derivesFromRecv: v is the receiver or a field (embedded struct) loaded from it.
